@@ -63,7 +63,15 @@ type discoverCtx struct {
 	bases   map[string]map[int]*Term
 	whole   map[string]bool
 	startID int // term counter when the discovery started: older terms are loop-invariant
+	// window-precise write sets for slice backings: per region and base reference the windows [lo, lo+n)
+	// of the slices through which elements were written (an element write is inside its slice's window
+	// because its bounds check is an obligation); fullRow marks bases also written otherwise
+	wins    map[string]map[int][]win
+	fullRow map[string]map[int]bool
+	curWin  *win
 }
+
+type win struct{ lo, n *Term }
 
 // State is one symbolic path state.
 type State struct {
@@ -76,6 +84,7 @@ type State struct {
 	mute   bool
 	disc   *discoverCtx
 	entry  *State // snapshot at function entry (for old())
+	waitSt *State // snapshot after the most recent sync.Cond.Wait (for atwait()); nil before the first one
 	lets   map[string]SV
 	trace  []string
 	rewrites map[int]*Term // term id -> constant fixed by a case split on this path
@@ -220,7 +229,33 @@ func (st *State) setRegion(key string, t *Term) {
 			if st.disc.bases[key] == nil {
 				st.disc.bases[key] = map[int]*Term{}
 			}
-			st.disc.bases[key][t.args[1].id] = t.args[1]
+			bid := t.args[1].id
+			st.disc.bases[key][bid] = t.args[1]
+			if st.disc.curWin != nil {
+				if st.disc.wins == nil {
+					st.disc.wins = map[string]map[int][]win{}
+				}
+				if st.disc.wins[key] == nil {
+					st.disc.wins[key] = map[int][]win{}
+				}
+				dup := false
+				for _, w := range st.disc.wins[key][bid] {
+					if w.lo == st.disc.curWin.lo && w.n == st.disc.curWin.n {
+						dup = true
+					}
+				}
+				if !dup {
+					st.disc.wins[key][bid] = append(st.disc.wins[key][bid], *st.disc.curWin)
+				}
+			} else {
+				if st.disc.fullRow == nil {
+					st.disc.fullRow = map[string]map[int]bool{}
+				}
+				if st.disc.fullRow[key] == nil {
+					st.disc.fullRow[key] = map[int]bool{}
+				}
+				st.disc.fullRow[key][bid] = true
+			}
 		} else {
 			st.disc.whole[key] = true
 		}
@@ -359,6 +394,13 @@ func (st *State) store(x *Exec, p SV, v SV) {
 	local := false
 	if st.disc != nil && base.isConst() && base.c.IsInt64() && base.c.Int64() > int64(0x80000000)+int64(st.disc.freshBase) {
 		local = true
+	}
+	if st.disc != nil {
+		st.disc.curWin = nil
+		if p.p != nil && p.p.backing && len(p.p.steps) == 1 && p.p.steps[0].lo != nil {
+			st.disc.curWin = &win{p.p.steps[0].lo, p.p.steps[0].n}
+		}
+		defer func() { st.disc.curWin = nil }()
 	}
 	for k := li.lo; k < li.hi; k++ {
 		r := st.region(li.key(k), li.regionSort(k))
